@@ -231,12 +231,15 @@ func genProgram(r *rng.R, nroutes int, withInput bool) *aprog {
 		{Name: "Pet", Fields: [][3]string{{"ID", "int64", "id"}, {"Name", "string", "name"}, {"Tags", "[]string", "tags"}}},
 		{Name: "Order", Fields: [][3]string{{"ID", "int64", "id"}, {"Pet", "*Pet", "pet"}, {"Count", "int32", "count"}}},
 		{Name: "APIError", Fields: [][3]string{{"Code", "int32", "code"}, {"Message", "string", "message"}}},
+		{Name: "Widget", Fields: [][3]string{{"ID", "int64", "id"}, {"Label", "string", "label"}}},
 	}
 	pg.Responses = []aresponse{
 		{GoName: "PetResponse", Name: "petResponse", Body: "Pet", Headers: [][2]string{{"X-Rate-Limit", "int32"}}},
 		{GoName: "OrdersResponse", Name: "ordersResponse", Body: "[]Order"},
 		{GoName: "GenericError", Name: "genericError", Body: "APIError", Headers: [][2]string{{"X-Request-Id", "string"}, {"X-Retry", "bool"}}},
 		{GoName: "EmptyResponse", Name: "emptyResponse"},
+		// a response and a model may share a name: #/responses and #/definitions are separate namespaces
+		{GoName: "WidgetResponse", Name: "Widget", Body: "Widget", Headers: [][2]string{{"X-Widget-Count", "int32"}}},
 	}
 	used := map[string]bool{}
 	usedID := map[string]bool{}
@@ -268,7 +271,7 @@ func genProgram(r *rng.R, nroutes int, withInput bool) *aprog {
 			rt.Schemes = []string{"https", "wss"}
 		}
 		rt.Deprecated = r.Chance(1, 6)
-		rt.Responses = [][2]string{{"200", r.Pick([]string{"petResponse", "ordersResponse", "emptyResponse"})}, {"default", "genericError"}}
+		rt.Responses = [][2]string{{"200", r.Pick([]string{"petResponse", "ordersResponse", "emptyResponse", "Widget"})}, {"default", "genericError"}}
 		if r.Chance(1, 2) {
 			rt.Responses = append(rt.Responses, [2]string{"422", "genericError"})
 		}
@@ -938,7 +941,9 @@ func c17(args []string) {
 		}
 	}
 	// grammar cases for the model
-	coq := c17Grammar(r.Fork(), dir, cov, func(key, what string, in, detail interface{}) { viols = append(viols, violation{key, what, in, detail}) })
+	coq := c17Grammar(r.Fork(), dir, cov, func(key, what string, in, detail interface{}) {
+		viols = append(viols, violation{key, what, in, detail})
+	})
 	cd := filepath.Join(*out, "coq-c17")
 	_ = os.RemoveAll(cd)
 	_ = os.MkdirAll(cd, 0o755)
